@@ -391,9 +391,14 @@ def run_main(argv, stdin_text=""):
     """yaml_paths.main() with argv; returns (exit code, stdout lines, stderr text)."""
     from yamlpath.commands import yaml_paths as yp
     _proxy()
+    import yamlpath.common.parsers as parsers_mod
     out, err = io.StringIO(), io.StringIO()
     old = sys.argv
+    old_in, old_pin = sys.stdin, parsers_mod.stdin
     sys.argv = ["yaml-paths"] + list(argv)
+    if stdin_text:
+        # the loader reads the name `stdin` it imported; main() asks sys.stdin whether it is a terminal
+        sys.stdin = parsers_mod.stdin = io.StringIO(stdin_text)
     code = 0
     try:
         with contextlib.redirect_stdout(out), contextlib.redirect_stderr(err):
@@ -403,5 +408,6 @@ def run_main(argv, stdin_text=""):
                 code = ex.code if isinstance(ex.code, int) else (0 if ex.code is None else 1)
     finally:
         sys.argv = old
+        sys.stdin, parsers_mod.stdin = old_in, old_pin
     text = out.getvalue()
     return code, (text.split("\n")[:-1] if text else []), err.getvalue()
